@@ -4,7 +4,8 @@ Tie: (a) regeneration: the mask/shift/range expressions and the full-width guard
 convert_to_object_bitfield / convert_from_object_bitfield are re-extracted from the source text into
 coq/C02/Gen.v and shown (for every width 1..63 and shift 0..63) to be free of C undefined behaviour and
 equal to the values the hand model uses; (b) correspondence: real structs `struct { T pad:sh; T x:w; }`
-for (integer type, width, shift) placements x boundary and random values, on the scratch build:
+for (integer type, width, shift) placements x boundary and random values (and, stream "multi", C01's random
+aggregates with several bit-fields: write one, re-read all, replay the write with gcc), on the scratch build:
 setattr/getattr, ffi.buffer before/after, and a gcc-built accessor (which bits belong to the field,
 what value C reads); the Coq model bf_write/bf_read is evaluated on the same unit contents.
 """
@@ -93,7 +94,171 @@ def generate(ctx):
             cases.append(dict(op="write", type=t, w=w, sh=sh, v=str(v), seed=rng.randrange(1 << 30)))
         for _ in range(ctx.n(3, 8)):
             cases.append(dict(op="read", type=t, w=w, sh=sh, seed=rng.randrange(1 << 30)))
+    cases += multi_cases(ctx)
     return cases
+
+
+# ------------------------------------------------------------------ stream "multi": several fields in one object
+# C01's random aggregates (any mix of bit-fields of different types sharing / not sharing storage units, plain
+# members, nested and anonymous structs/unions, arrays, flexible tail) with at least two named bit-fields: one
+# bit-field is written through cffi, every integer field is re-read (cffi and a gcc accessor), and the same write
+# is replayed by gcc-compiled code on the same initial bytes.  Ties C02_fields_noninterfere /
+# C02_layout_fields_disjoint on the implementation.
+
+def _int_fields(top):
+    from props import c01
+    return [(n, b, c) for (n, b, c) in c01.flat_fields(top)
+            if c in c01.BF_TYPES and (b > 0 or (b < 0 and c != "_Bool"))]
+
+
+def _union_free(node):
+    if node["u"]:
+        return False
+    return all(_union_free(f["t"]) for f in node["fields"] if not f["name"] and f["t"]["k"] == "agg")
+
+
+def _zero_size(t):
+    """struct/union types of compiler size 0 (only zero-width bit-fields / zero-size members): cffi gives them
+    size 1 — C01's known finding zero_size_aggregate, which moves the members after them; not C02's subject"""
+    if t["k"] == "arr":
+        return t["n"] == 0 or _zero_size(t["item"])
+    if t["k"] != "agg":
+        return False
+    return all(f["bits"] == 0 or (f["bits"] < 0 and _zero_size(f["t"])) for f in t["fields"])
+
+
+def multi_cases(ctx):
+    from props import c01
+    rng = ctx.rng
+    want, out, tries = ctx.n(40, 300), [], 0
+    while len(out) < want and tries < 20000:
+        tries += 1
+        top = c01.rand_agg(rng, c01.Namer(), rng.choice([0, 0, 2, 3]), 0, False)
+        for n in c01.agg_nodes(top):
+            n["pack"], n["packed_kw"] = 0, False
+        top["inline"] = False
+        fl = _int_fields(top)
+        bfs = [i for i, (n, b, c) in enumerate(fl) if b > 0]
+        if len(bfs) < 2 or len(set(n for n, b, c in fl)) != len(fl):
+            continue
+        if any(_zero_size(n) for n in c01.agg_nodes(top)):
+            continue
+        trials = []
+        for _ in range(ctx.n(4, 10)):
+            wi = rng.choice(bfs)
+            _n, b, c = fl[wi]
+            lo, hi = frange(c not in c01.UNSIGNED, b)
+            v = rng.choice([lo, hi, 0, min(hi, 1), rng.randint(lo, hi), rng.randint(lo, hi)])
+            trials.append(dict(wi=wi, v=str(v), seed=rng.randrange(1 << 30)))
+        out.append(dict(op="multi", top=top, trials=trials))
+    return out
+
+
+def multi_source(cases, prefix):
+    """-> (per-case cdef text, C source of the accessor library); tags are assigned here"""
+    from props import c01
+    cdefs, csrc = [], [c01.PRELUDE_C]
+    gets, sets, sizes = [], [], []
+    for k, c in enumerate(cases):
+        nodes = c01.assign_tags(c, "%s%d" % (prefix, k))
+        decls = ["%s %s %s;" % (c01.kw(n), n["tag"], c01.body(n)) for n in nodes if not n["inline"]]
+        cdefs.append("\n".join(decls))
+        csrc.append("\n".join(decls))
+        T = "%s %s" % (c01.kw(c["top"]), c["top"]["tag"])
+        sizes.append(" case %d: return (int)sizeof(%s);" % (k, T))
+        for fi, (name, b, ct) in enumerate(_int_fields(c["top"])):
+            gets.append(" case %d: return (unsigned long long)(long long)((%s *)p)->%s;" % (k * 64 + fi, T, name))
+            sets.append(" case %d: ((%s *)p)->%s = (%s)v; break;" % (k * 64 + fi, T, name, ct))
+    csrc.append("unsigned long long m_get(int id, void *p) { switch (id) {\n%s\n } return 0; }" % "\n".join(gets))
+    csrc.append("void m_set(int id, void *p, unsigned long long v) { switch (id) {\n%s\n } }" % "\n".join(sets))
+    csrc.append("int m_sizeof(int k) { switch (k) {\n%s\n } return -1; }" % "\n".join(sizes))
+    return cdefs, "\n".join(csrc) + "\n"
+
+
+def evaluate_multi(ctx, cases):
+    from props import c01
+    s = ctx.scratch()
+    cases = [c for c in cases if len(_int_fields(c["top"])) <= 64]
+    tag = "c02m%d" % (getattr(ctx, "_c02_n", 0))
+    ctx._c02_n = getattr(ctx, "_c02_n", 0) + 1
+
+    def build(cs):
+        cdefs, src = multi_source(cs, tag + "_")
+        cfile = os.path.join(s.work, tag + ".c")
+        with open(cfile, "w") as f:
+            f.write(src)
+        so = os.path.join(s.work, "lib%s.so" % tag)
+        p = subprocess.run(["gcc", "-w", "-O0", "-fPIC", "-shared", "-o", so, cfile], capture_output=True, text=True)
+        return cdefs, so, p
+    cdefs, so, p = build(cases)
+    if p.returncode:
+        # a declaration outside C (gcc refuses it): find and drop the offenders, they are outside the property's class
+        keep = []
+        for c in cases:
+            _cd, src = multi_source([c], tag + "_probe")
+            q = subprocess.run(["gcc", "-w", "-fsyntax-only", "-x", "c", "-"], input=src, capture_output=True, text=True)
+            if q.returncode == 0:
+                keep.append(c)
+            else:
+                ctx.hist("multi_gcc_rejects(outside class)", "1")
+        cases = keep
+        cdefs, so, p = build(cases)
+        if p.returncode:
+            raise vlib.BuildError("C02 multi helper: " + p.stderr[-2000:])
+    payload = dict(op="multi", prelude=c01.PRELUDE_CDEF, so=so, cases=[
+        dict(cdef=cd, T="%s %s" % (c01.kw(c["top"]), c["top"]["tag"]),
+             fields=[n for n, b, ct in _int_fields(c["top"])], trials=c["trials"])
+        for cd, c in zip(cdefs, cases)])
+    out, p = s.run_worker("c02_worker.py", payload, timeout=1500)
+    if out is None:
+        ctx.violation(cases[0], "C02 worker (multi) failed (crash in bitfield access?): rc=%s %s"
+                      % (p.returncode, (p.stderr[-1500:] or p.stdout[-500:])))
+        return
+    for c, r in zip(cases, out["cases"]):
+        fl = _int_fields(c["top"])
+        ufree = _union_free(c["top"])
+        if r.get("error"):
+            # cdef/new refused a declaration gcc accepts: "no declaration rejected" is C01's property; not judged here
+            ctx.hist("multi_cffi_rejects", r["error"])
+            continue
+        if r["size"] != r["csize"]:
+            ctx.hist("multi_size_differs(C01)", "1")
+            continue
+        ctx.hist("multi_fields", min(len(fl), 12))
+        ctx.hist("multi_union_free", ufree)
+        for t, tr in zip(c["trials"], r["trials"]):
+            ctx.count()
+            wi, v = t["wi"], int(t["v"])
+            name, b, ct = fl[wi]
+            one = dict(op="multi", top=c["top"], trials=[t])
+
+            def cval(x, i):
+                x = int(x)
+                return x - (1 << 64) if (fl[i][2] not in c01.UNSIGNED and x >= 1 << 63) else x
+            bad = None
+            if not tr["ok"]:
+                bad = "assigning in-range %d to bit-field %s (%s :%d) raised %s" % (v, name, ct, b, tr["exc"])
+            elif tr["after"] != tr["cafter"]:
+                bad = ("write of %d to %s (%s :%d): object bytes after cffi's write %s, after gcc's write %s (before %s)"
+                       % (v, name, ct, b, tr["after"], tr["cafter"], tr["before"]))
+            else:
+                for i, (n2, b2, ct2) in enumerate(fl):
+                    if tr["reads_after"][i] != str(cval(tr["creads_after"][i], i)):
+                        bad = "after writing %s, field %s (%s :%d): cffi reads %s, C reads %d" % (
+                            name, n2, ct2, b2, tr["reads_after"][i], cval(tr["creads_after"][i], i))
+                        break
+                    if ufree and i != wi and tr["reads_after"][i] != tr["reads_before"][i]:
+                        bad = "writing bit-field %s changed field %s of the same union-free struct: %s -> %s" % (
+                            name, n2, tr["reads_before"][i], tr["reads_after"][i])
+                        break
+                    if i == wi and tr["reads_after"][i] != str(-1 if (b == 1 and ct not in c01.UNSIGNED and v == 1) else v):
+                        bad = "wrote %d to %s (%s :%d), read back %s" % (v, name, ct, b, tr["reads_after"][i])
+                        break
+            if bad:
+                ctx.violation(one, bad, finding_key(one))
+            else:
+                ctx.nontrivial(("multi", c["top"]["tag"], wi, t["v"], t["seed"] % 4))
+    ctx.extra["multi_structs"] = len(cases)
 
 
 def struct_decl(k, t, w, sh):
@@ -133,6 +298,12 @@ def finding_key(case):
 
 
 def evaluate(ctx, cases):
+    multi = [c for c in cases if c["op"] == "multi"]
+    cases = [c for c in cases if c["op"] != "multi"]
+    if multi:
+        evaluate_multi(ctx, multi)
+    if not cases:
+        return
     pls, kof = [], {}
     for c in cases:
         key = (c["type"], c["w"], c["sh"])
@@ -273,7 +444,11 @@ def run(ctx):
                        "random in/out of range, over zero/all-ones/random unit contents; reads of random contents vs "
                        "the value a gcc-compiled accessor reads; which bits belong to the field is taken from gcc "
                        "(all-ones store into a zeroed struct). Non-trivial = value at fmin-1/fmin/fmax/fmax+1, full-width "
-                       "field, the signed 1-bit exception, or a read of distinct contents.")
+                       "field, the signed 1-bit exception, or a read of distinct contents. Stream 'multi': random "
+                       "aggregates of C01's generator (pack 0, no zero-size aggregate) with >= 2 named bit-fields "
+                       "among their flattened integer members; per struct several (bit-field, in-range value, "
+                       "zero/ones/random content) writes; judged against gcc (same write replayed, all fields "
+                       "re-read) and, in union-free structs, 'every other field unchanged'.")
     ctx.assumptions += [
         "hand-written model C02/Model.v of convert_to_object_bitfield / convert_from_object_bitfield; tied to the "
         "code by this run's differential test and by the regenerated expressions of C02/Gen.v",
@@ -281,21 +456,45 @@ def run(ctx):
         "gcc as the oracle for which bits a bitfield occupies and for the value C reads; x86-64 little endian; "
         "gcc treats plain short/int/long/long long bitfields as signed",
         "bit position/width (cf_bitshift/cf_bitsize) come from cffi's layout (property C01); every placement used is "
-        "first checked against gcc's mask"]
+        "first checked against gcc's mask; C01's theorems C01_fields_within_object / C01_fields_disjoint discharge "
+        "`placement` and disjointness for layouts of C01's model (C02_layout_fields_disjoint)",
+        "multi stream: structs whose cffi and gcc sizes differ or that cdef rejects are left to C01 (counted in "
+        "the histograms multi_size_differs(C01) / multi_cffi_rejects)"]
     evaluate(ctx, generate(ctx))
 
 
 MANIFEST = dict(
     technique="Coq proof (Z.testbit extensionality, explicit C undefined behaviour) for all unit sizes, widths, shifts, "
-              "unit contents and Python ints + regenerated mask/shift expressions + differential correspondence on "
-              "real structs against gcc",
+              "unit contents and Python ints; absolute-bit frame over the whole object composed with C01's layout "
+              "theorems + regenerated mask/shift expressions + differential correspondence on real structs against gcc "
+              "(single-field placements and multi-field random aggregates)",
     text="Proof: for every storage-unit size 1..8, width 1..8*size, shift with shift+width <= 8*size, every unit content "
-         "and every Python int v, the model of convert_from_object_bitfield evaluates no undefined C operation, accepts "
-         "iff v is in the field's range (plus 1 for a signed 1-bit field), then reads back v (-1 in that case), changes "
-         "no bit outside [shift, shift+width) and no byte of the enclosing object outside the unit, rejects with OverflowError leaving memory unchanged, and the read equals "
-         "the two's-complement value of those bits (what C reads). Tied on every run by regenerating the mask/shift "
-         "expressions from the source and by exercising real structs over (type, width, shift) placements.",
+         "and every Python int v, the model of convert_from_object_bitfield evaluates no undefined C operation "
+         "(C02_no_ub), accepts iff v is in the field's range, plus 1 for a signed 1-bit field (C02_accept_iff, "
+         "C02_bool_field), then reads back v, -1 in that case (C02_roundtrip), changes no bit outside [shift, "
+         "shift+width) and no byte of the enclosing object outside the unit (C02_isolated, C02_isolated_object), rejects "
+         "with OverflowError leaving memory unchanged (C02_reject_pure), and the read equals the two's-complement value "
+         "of those bits (C02_reads_like_C). Isolation between fields: seen on the whole object as one little-endian "
+         "number, a read is the bits [8*off+sh, +w) (C02_read_abs) and a write changes no other bit of the object "
+         "(C02_write_frame_abs); hence writing a bit-field never changes what is read through another bit-field with a "
+         "disjoint absolute range, even through storage units of different type and offset that overlap, e.g. "
+         "`char a:3; int b:5` (C02_fields_noninterfere), nor the bytes of a neighbouring plain member "
+         "(C02_field_write_keeps_bytes). C02_layout_fields_disjoint composes this with C01_fields_within_object and "
+         "C01_fields_disjoint: for any two distinct entries of the field table C01's layout model emits for a "
+         "union-free struct of its class, the `placement` and in-bounds premises hold and writing one bit-field changes "
+         "no other field. The mask/shift/range expressions, the full-width guard and the value conversion are "
+         "regenerated from the source into C02/Gen.v and proved equal to the model (C02_gen_read_refines, "
+         "C02_gen_write_refines); the control skeleton (C02/Interp.v) and the raw memory readers/writers (C03/Mem.v) are "
+         "hand-written. Correspondence on every run: real structs `struct { T pad:sh; T x:w; }` over (type, width, "
+         "shift) placements x boundary/random values against gcc and the Coq model; and the 'multi' stream: C01's "
+         "random aggregates with >= 2 bit-fields — one bit-field written through cffi, every integer field re-read by "
+         "cffi and by a gcc accessor, the same write replayed by gcc on the same bytes (whole objects compared), and "
+         "in union-free structs every other field unchanged.",
     note="Trusted: Coq kernel; hand model C02/Model.v (differential tie + regenerated expressions); translator; gcc as "
-         "oracle for bit positions and C reads; layout (bitshift/bitsize) is property C01's concern. Theorems closed "
-         "under the global context.",
+         "oracle for bit positions and C reads. C02_layout_fields_disjoint is about C01's hand model of the layout "
+         "function (tied to the C code by C01's correspondence and here by the 'multi' stream), and quantifies over "
+         "either signedness for each field because C01 abstracts integer types as (size, alignment). "
+         "convert_field_from_object / the cdata_getattro dispatch (offset + bitshift >= 0 test) are not modelled: "
+         "correspondence only. Unit sizes 3, 5, 6, 7 are in the quantified superset. Theorems closed under the global "
+         "context.",
     design_ref="DESIGN.md §4 C02")
